@@ -164,6 +164,8 @@ pub struct GenCfg {
     /// declared lists may contain repetitions / the same id under reads and writes
     pub messy_decl: bool,
     pub tl_in_batch: bool,
+    /// thread-local systems inside batches declare nothing (no borrow conflict can come of them)
+    pub tl_in_batch_quiet: bool,
     pub funnel: bool,
     /// no resources at all: only dependencies / barriers order things
     pub p_unrelated: u64,
@@ -174,6 +176,19 @@ pub struct GenCfg {
     /// a registration whose `running_time()` callback panics inside `add` (hint 0); nothing may
     /// depend on such a system, its name stays taken
     pub p_callback_panic: u64,
+    /// scale: the case starts with this many (lo, hi) systems without resources - one stage that
+    /// is hundreds of groups wide - before the generated part
+    pub prefix_wide: (u64, u64),
+    /// scale: the case starts with this many (lo, hi) `system; barrier` pairs - hundreds of
+    /// effective barriers, hundreds of stages - before the generated part
+    pub prefix_deep: (u64, u64),
+    /// long declared lists (up to ten ids per system, from a lane of private resources) so that
+    /// the accumulated lists of a group outgrow any small inline buffer
+    pub fat: bool,
+    /// names are the empty string, the spelling of a placeholder (`unnamed_system_<k>` for this or
+    /// one of the next registrations) or plain, in about equal parts; no batches / thread-local
+    /// systems, so that tags are the builder's ids
+    pub placeholder_names: bool,
 }
 impl GenCfg {
     pub fn base() -> GenCfg {
@@ -191,11 +206,16 @@ impl GenCfg {
             p_odd_name: 10,
             messy_decl: false,
             tl_in_batch: false,
+            tl_in_batch_quiet: false,
             funnel: false,
             p_unrelated: 10,
             max_batch_n: 3,
             many_res: false,
             p_callback_panic: 0,
+            prefix_wide: (0, 0),
+            prefix_deep: (0, 0),
+            fat: false,
+            placeholder_names: false,
         }
     }
     pub fn profile(name: &str) -> GenCfg {
@@ -260,6 +280,47 @@ impl GenCfg {
                 c.p_unrelated = 0;
                 c.messy_decl = true;
             }
+            "vwide" => {
+                c.prefix_wide = (250, 330);
+                c.max_n = 12;
+                c.p_batch = 0;
+                c.p_unrelated = 5;
+                c.p_barrier = 0;
+                c.p_tl = 0;
+                c.p_dep = 15;
+            }
+            "deep" => {
+                c.prefix_deep = (250, 600);
+                c.max_n = 10;
+                c.p_batch = 0;
+                c.p_barrier = 15;
+                c.p_tl = 0;
+            }
+            "fat" => {
+                c.fat = true;
+                c.many_res = false;
+                c.p_batch = 3;
+                c.p_barrier = 3;
+                c.p_dep = 8;
+                c.p_tl = 0;
+                c.max_n = 18;
+            }
+            "phname" => {
+                c.placeholder_names = true;
+                c.p_batch = 0;
+                c.p_tl = 0;
+                c.p_dep = 60;
+                c.p_barrier = 4;
+                c.p_unrelated = 50;
+                c.p_dup_name = 4;
+                c.max_n = 10;
+            }
+            "tlbatch" => {
+                c.tl_in_batch = true;
+                c.tl_in_batch_quiet = true;
+                c.p_batch = 35;
+                c.p_tl = 30;
+            }
             "kf1" => {
                 c.tl_in_batch = true;
                 c.p_batch = 30;
@@ -281,10 +342,12 @@ pub struct Gen {
     /// every system of the case is registered under the empty name (the name map stays empty,
     /// so `is_empty()` / `num_systems()` say "no systems")
     pub all_unnamed: bool,
+    /// how far the motif of the `fat` profile has got
+    pub fat_step: u8,
 }
 impl Gen {
     pub fn new(rng: Rng, cfg: GenCfg) -> Gen {
-        let mut g = Gen { rng, cfg, next_tag: 0, nty: 1, ndy: 1, density: 3, all_unnamed: false };
+        let mut g = Gen { rng, cfg, next_tag: 0, nty: 1, ndy: 1, density: 3, all_unnamed: false, fat_step: 0 };
         g.all_unnamed = g.rng.chance(8);
         g.nty = 1 + g.rng.below(NTY as u64);
         g.ndy = 1 + g.rng.below(if g.nty <= 2 { NDY } else { 2 });
@@ -300,8 +363,15 @@ impl Gen {
     }
     fn name(&mut self, tag: usize) -> String {
         let c = self.rng.below(100);
-        if self.all_unnamed {
+        if self.all_unnamed && !self.cfg.placeholder_names {
             return String::new();
+        }
+        if self.cfg.placeholder_names {
+            return match self.rng.below(5) {
+                0 | 1 => String::new(),
+                2 | 3 => format!("unnamed_system_{}", tag + self.rng.below(3) as usize),
+                _ => format!("s{}", tag),
+            };
         }
         if c < self.cfg.p_empty_name {
             String::new()
@@ -315,7 +385,9 @@ impl Gen {
                 5 => format!("q\"{}\\t\t{}", tag, tag),
                 0 => format!("sys {}-x/{}", tag, tag),
                 1 => format!("s\u{e9}-{} /", tag),
-                2 => format!("unnamed_system_{}", tag),
+                // the spelling of the placeholder an unnamed system is printed under: of this system, or of
+                // one of the next few registrations (which may well be unnamed)
+                2 => format!("unnamed_system_{}", tag + (self.rng.below(4) as usize) * (self.rng.below(2) as usize)),
                 // distinct names that coincide once sanitised (' ', '-', '/' become '_')
                 _ => format!("c{}{}", *self.rng.pick(&[' ', '-', '/', '_']), self.rng.below(2)),
             }
@@ -334,6 +406,70 @@ impl Gen {
                     }
                 } else if !r.contains(&x) {
                     r.push(x)
+                }
+            }
+            return (r, w);
+        }
+        if self.cfg.fat {
+            // a lane of six private resources. Three kinds of member: wide (writes two or three
+            // ids, declared seven to ten times over, and reads one or two others), narrow writer
+            // (one or two ids), narrow reader (one or two ids): a group's lists grow past ten /
+            // twelve entries while single ids change from read-by-the-group to
+            // written-by-the-group, and late readers probe them
+            // the first members of lane 0 follow a motif (others, of lane 1, may come in between):
+            // a wide member that reads X, a writer of X (and up to two more ids), a reader of X
+            if self.fat_step < 3 && self.rng.chance(70) {
+                self.fat_step += 1;
+                match self.fat_step {
+                    1 => {
+                        for i in 0..6 + self.rng.below(6) as usize {
+                            w.push((0, 1 + (i % 3) as u64));
+                        }
+                        r.push((0, 0));
+                        if self.rng.chance(40) {
+                            r.push((0, 4));
+                        }
+                    }
+                    2 => {
+                        w.push((0, 0));
+                        for d in 0..self.rng.below(3) {
+                            w.push((0, 4 + d % 2));
+                        }
+                    }
+                    _ => r.push((0, 0)),
+                }
+                return (r, w);
+            }
+            let lane = if self.fat_step < 3 { 1 } else { self.rng.below(2) as u8 };
+            let mut ids: Vec<u64> = (0..6).collect();
+            self.rng.shuffle(&mut ids);
+            match self.rng.below(10) {
+                0..=2 => {
+                    let nw = 2 + self.rng.below(2) as usize;
+                    for i in 0..7 + self.rng.below(4) as usize {
+                        w.push((lane, ids[i % nw]));
+                    }
+                    for d in &ids[nw..nw + 1 + self.rng.below(2) as usize] {
+                        r.push((lane, *d));
+                    }
+                    if self.rng.chance(30) {
+                        // the same the other way round: a long read list
+                        std::mem::swap(&mut r, &mut w);
+                        for i in 0..6 {
+                            let x = r[i % r.len()];
+                            r.push(x);
+                        }
+                    }
+                }
+                3..=5 => {
+                    for d in &ids[..1 + self.rng.below(2) as usize] {
+                        w.push((lane, *d));
+                    }
+                }
+                _ => {
+                    for d in &ids[..1 + self.rng.below(2) as usize] {
+                        r.push((lane, *d));
+                    }
                 }
             }
             return (r, w);
@@ -371,6 +507,9 @@ impl Gen {
         (r, w)
     }
     fn time(&mut self) -> u8 {
+        if self.cfg.fat {
+            return if self.rng.chance(85) { 1 } else { 2 };
+        }
         if self.rng.chance(55) {
             1
         } else {
@@ -392,6 +531,34 @@ impl Gen {
             v.push(Op::Sys { tag, name: format!("init{}", tag), deps: vec![], r, w, t: 3 });
             v.push(Op::Barrier);
         }
+        if depth == 0 && self.cfg.prefix_wide.1 > 0 {
+            let (lo, hi) = self.cfg.prefix_wide;
+            for _ in 0..lo + self.rng.below(hi - lo + 1) {
+                let tag = self.next_tag;
+                self.next_tag += 1;
+                let t = self.time();
+                v.push(Op::Sys { tag, name: format!("w{}", tag), deps: vec![], r: vec![], w: vec![], t });
+            }
+            // the generated part may depend on the last few of them (groups with a high index)
+            for tag in self.next_tag.saturating_sub(3)..self.next_tag {
+                names.push(format!("w{}", tag));
+            }
+        }
+        if depth == 0 && self.cfg.prefix_deep.1 > 0 {
+            let (lo, hi) = self.cfg.prefix_deep;
+            for _ in 0..lo + self.rng.below(hi - lo + 1) {
+                let tag = self.next_tag;
+                self.next_tag += 1;
+                v.push(Op::Sys { tag, name: format!("d{}", tag), deps: vec![], r: vec![], w: vec![], t: 1 });
+                v.push(Op::Barrier);
+            }
+        }
+        if self.cfg.fat && depth == 0 {
+            // a long system opens the stage, so that the others may join groups
+            let tag = self.next_tag;
+            self.next_tag += 1;
+            v.push(Op::Sys { tag, name: format!("heavy{}", tag), deps: vec![], r: vec![], w: vec![(5u8, 0u64)], t: 5 });
+        }
         for k in 0..n {
             let c = self.rng.below(100);
             if c < self.cfg.p_barrier {
@@ -404,7 +571,7 @@ impl Gen {
             let tag = self.next_tag;
             self.next_tag += 1;
             if self.rng.chance(self.cfg.p_tl) && (depth == 0 || self.cfg.tl_in_batch) {
-                let (r, w) = self.access();
+                let (r, w) = if depth > 0 && self.cfg.tl_in_batch_quiet { (vec![], vec![]) } else { self.access() };
                 v.push(Op::Tl { tag, r, w });
                 continue;
             }
